@@ -3,6 +3,7 @@
 From stdpp Require Import gmap.
 From Coq Require Import NArith.
 From RV Require Import Ingress.IngressModel Rib.RibModel Bmp.BmpModel Bmp.BmpProofs.
+From RV Require Gate.GateModel Gate.GateProofs.
 Local Open Scope N_scope.
 
 (* at every point of every message history the three peer gauges equal the
@@ -53,4 +54,43 @@ Example C15_example :
   let s := (sm_run reg_new 5 sm_init ms).1.2 in
   (m_up (sm_metrics s), m_eorcap (sm_metrics s), m_dumping (sm_metrics s), m_ann (sm_metrics s), m_wd (sm_metrics s))
   = (1, 1, 1, 2, 1).
+Proof. vm_compute. reflexivity. Qed.
+
+(* ---- gate level: GateMetrics num_updates / num_dropped_updates (src/comms.rs, shared by a gate
+   and its clones) over the interleaving model of C08 (Gate/GateModel.v): [run cf tr] executes
+   ANY list of atomic actions of links, root gate, clones and publishers. *)
+
+(* on every schedule num_updates is the number of update_data calls that have returned, and
+   num_dropped_updates the number of those that nobody took: no hand-over of that update to any
+   link (queued to a live receiver / direct_update called on a live target) is in the log *)
+Theorem C15_gate_counters_count : forall cf tr,
+  GateModel.m_upd (GateModel.run cf tr) = GateModel.n_published (GateModel.run cf tr) /\
+  GateModel.m_drop (GateModel.run cf tr) = GateModel.n_dropped (GateModel.run cf tr).
+Proof. exact GateProofs.gate_counters_count. Qed.
+Print Assumptions C15_gate_counters_count.
+
+(* an update is counted as dropped exactly when it was handed to nobody *)
+Theorem C15_gate_dropped_iff_nobody_took_it : forall cf tr p n sn b,
+  List.In (p, n, sn, b) (GateModel.completed (GateModel.run cf tr)) ->
+  (b = false <-> forall x l, ~ List.In (x, l, p, n) (GateModel.delivered (GateModel.run cf tr))).
+Proof. exact GateProofs.gate_dropped_iff_nobody_took_it. Qed.
+Print Assumptions C15_gate_dropped_iff_nobody_took_it.
+
+(* the same count read off the schedule: the number of enabled [AEnd] steps *)
+Theorem C15_gate_num_updates_counts_trace : forall cf tr,
+  GateModel.m_upd (GateModel.run cf tr) = N.of_nat (GateModel.finished_in cf GateModel.init tr).
+Proof. exact GateProofs.gate_num_updates_counts_trace. Qed.
+Print Assumptions C15_gate_num_updates_counts_trace.
+
+Theorem C15_gate_counters_monotone : forall cf s a,
+  GateModel.m_upd s <= GateModel.m_upd (GateModel.step cf s a) /\
+  GateModel.m_drop s <= GateModel.m_drop (GateModel.step cf s a).
+Proof. exact GateProofs.gate_counters_monotone. Qed.
+Print Assumptions C15_gate_counters_monotone.
+
+Example C15_gate_example :
+  let cf := GateModel.MkCfg 2 false in
+  let tr := [GateModel.ASendSub 1; GateModel.ARoot; GateModel.ABegin 0; GateModel.ADeliver 0; GateModel.AEnd 0;
+             GateModel.ARxDrop 0; GateModel.ABegin 0; GateModel.ADeliver 0; GateModel.AEnd 0] in
+  (GateModel.m_upd (GateModel.run cf tr), GateModel.m_drop (GateModel.run cf tr)) = (2, 1).
 Proof. vm_compute. reflexivity. Qed.
